@@ -1,8 +1,10 @@
 import N2k.Model.Heartbeat
+import N2k.Model.GroupFunction
 import Driver.Engines.Send
 -- engine: hb
 /-! Engine `hb` (C12, C13): runs `pollTopH` / `setHeartbeatIntervalAndOffset` / `sendHeartbeat` /
-`sendHeartbeatOne` / `claimH` of `Model/Heartbeat.lean` on a node that has just been constructed. -/
+`sendHeartbeatOne` / `claimH` of `Model/Heartbeat.lean` on a node that has just been constructed; a received group-function
+request for PGN 126993 is decided by `GF.req126993` of `Model/GroupFunction.lean`. -/
 namespace Driver.Heartbeat
 open N2k.Send N2k.Time N2k.Heartbeat Driver Driver.Send
 
@@ -21,6 +23,39 @@ def runDense : Nat → Nat → HSt → List String → HSt × List String
     let (h1, fr) := takeSentH (pollTopH h).1
     let acc := acc ++ fr.map (fun f => s!"{k}:{frameStr f}")
     runDense n (k + 1) (tickH h1 1) acc
+
+def le (n v : Nat) : List Nat := (List.range n).map fun i => (v >>> (8 * i)) % 256
+
+/-- a reassembled PGN 126208 request for PGN 126993 from source 50 -/
+def gfReqMsg (dst iv off pairs : Nat) : Msg :=
+  { prio := 3, pgn := 126208, src := 50, dst := dst, len := 11,
+    data := [0] ++ le 3 126993 ++ le 4 iv ++ le 2 off ++ [pairs % 256] }
+
+/-- `RespondGroupFunction` for device `i`, heartbeat part: a served request sets interval/offset and sends a heartbeat
+(`SendHeartbeat(iDev)`); acknowledgements are C09's subject and not produced here -/
+def gfServe (m : Msg) (h : HSt) (i : Nat) : HSt :=
+  match h.st.devs[i]? with
+  | none => h
+  | some d =>
+    match N2k.GF.req126993 d m with
+    | .serveHeartbeat iv off => (sendHeartbeatOne (setHeartbeatIntervalAndOffset h iv off (some i)) i).1
+    | _ => h
+
+/-- `ParseMessages()` with one group-function request in the receive queue -/
+def gfPoll (h : HSt) (target : Option Nat) (iv off pairs : Nat) : HSt :=
+  let fl := sendFrames h.st.ring h.st.drv
+  let h1 : HSt := { h with st := { h.st with ring := fl.1, drv := fl.2.1 } }
+  let h2 :=
+    if ¬ h1.st.claimMode then h1 else        -- system messages are handled by active nodes only
+    match target with
+    | none => (List.range h1.st.devs.length).foldl (gfServe (gfReqMsg 255 iv off pairs)) h1
+    | some i =>
+      match h1.st.devs[i]? with
+      | none => h1
+      | some d => gfServe (gfReqMsg d.source iv off pairs) h1 i
+  (sendHeartbeat false h2).1
+
+def isHbFrame (f : Frame) : Bool := (f.id >>> 8) % 131072 == 126993
 
 def parseDevArg (s : String) : Option Nat := if s.startsWith "-" then none else nat? s
 
@@ -86,6 +121,13 @@ def stepH (st : Option HSt) (w : List String) : Option HSt × String :=
         let (h', fr) := takeSentH (sendHeartbeatOne h d).1
         (some h', framesStr fr)
       | none => (st, "-")
+    | ["gfreq", d, iv, off, pairs] =>
+      if h.st.openState ≠ 3 then (st, "closed") else
+      match nat? iv, nat? off, nat? pairs with
+      | some iv, some off, some pairs =>
+        let (h', fr) := takeSentH (gfPoll h (parseDevArg d) iv off pairs)
+        (some h', framesStr (fr.filter isHbFrame))
+      | _, _, _ => (st, "bad-op")
     | ["get"] =>
       let l := h.hb.map (devStr h.syncOffset)
       (some { h with infoChanged := false },
